@@ -144,6 +144,11 @@ PROBES = [
      dict(op='popkeys', loc=1, ks=[1, 2, 1], d=77), dict(op='items', loc=1), dict(op='popkeysd', loc=1, ks=[4, 4], d=77),
      dict(op='update0', loc=1), dict(op='updatekwonly', loc=1, k=1, v=12, k2=4, v2=41), dict(op='updateitems', loc=2, k=2, v=21, k2=3, v2=33),
      dict(op='items', loc=1), dict(op='items', loc=2)],
+    # what a failed bulk update leaves behind must not be undone (or completed) by a LATER failing or succeeding operation
+    [dict(op='set', loc=1, k=1, v=11), dict(op='updatebad', loc=1, k=2, v=21, k2=3), dict(op='items', loc=1),
+     dict(op='setbad', loc=1, k=4), dict(op='items', loc=1), dict(op='len', loc=1), dict(op='set', loc=2, k=1, v=12),
+     dict(op='items', loc=2), dict(op='updatebad', loc=1, k=4, v=41, k2=1), dict(op='set', loc=1, k=3, v=31), dict(op='items', loc=1),
+     dict(op='del', loc=1, k=3), dict(op='setbad', loc=1, k=3), dict(op='keys', loc=1), dict(op='items', loc=2)],
 ]
 
 
@@ -326,15 +331,33 @@ def run(pid, tier, rep):
     strip = [{k: t[k] for k in ('cfg', 'init', 'events')} for t in traces]
     verdicts, st = common.validate_traces('DictTrace', strip, [pid])
     # a trace is judged up to its first rejected event (what follows runs on contents the defect has already
-    # disturbed); the many traces of a run give later operations their own clean prefixes
+    # disturbed); the many traces of a run give later operations their own clean prefixes.  Except: when the rejected
+    # event is a KNOWN finding the rest of the trace is judged too, as a trace of its own that starts from the contents
+    # observed after that event - a recorded finding must not hide what happens after it
     nrej = 0
-    for t, v in zip(traces, verdicts):
-        if v is None:
-            continue
-        nrej += 1
-        e = t['events'][v[0] - 1]
-        rep.reject(signature(t, v, pid), {'backend': t['meta']['backend'], 'keyset': t['meta']['keyset'], 'valset': t['meta']['valset'],
-                                          'ops': t['meta']['ops'][:v[0]], 'event_index': v[0], 'clauses': v[1], 'event': e})
+    pending = [(t, v, 0) for t, v in zip(traces, verdicts) if v is not None]
+    rounds = 0
+    while pending:
+        rounds += 1
+        cont = []
+        for t, v, base in pending:
+            nrej += 1
+            e = t['events'][v[0] - 1]
+            how = rep.reject(signature(t, v, pid), {'backend': t['meta']['backend'], 'keyset': t['meta']['keyset'], 'valset': t['meta']['valset'],
+                                                    'ops': t['meta']['ops'][:base + v[0]], 'event_index': base + v[0], 'clauses': v[1], 'event': e})
+            if how == 'known' and len(t['events']) > v[0] and e.get('usable', True) and rounds <= 4:
+                ex = list(t['init']['ex'])
+                for ev in t['events'][:v[0]]:
+                    if ev['op'] == 'copy' and ev.get('exc', 'none') == 'none':
+                        ex[ev['o'] - 1] = True
+                init = {k: e[k] for k in ('c', 'cf', 'n', 'kk', 'usable') if k in e}
+                init['ex'] = ex
+                cont.append((dict(t, init=init, events=t['events'][v[0]:]), base + v[0]))
+        if not cont:
+            break
+        vs, st2 = common.validate_traces('DictTrace', [{k: t[k] for k in ('cfg', 'init', 'events')} for t, _ in cont], [pid])
+        st['states'] += st2['states']
+        pending = [(t, v, base) for (t, base), v in zip(cont, vs) if v is not None]
     hashes = set()
     nontriv = 0
     for t in traces:
